@@ -9,6 +9,7 @@ import (
 func init() {
 	verifRegister("VerifC02_ETro", VerifC02_ETro)
 	verifRegister("VerifC02_EBlocked", VerifC02_EBlocked)
+	verifRegister("VerifC02_ETwin", VerifC02_ETwin)
 }
 
 // tail-loop shapes: the recursive call (f (- n 1)) sits in tail position through SHAPE.
@@ -27,6 +28,53 @@ var troShapes = []string{
 	"(defun f (n) (height) (probe n) (if (= n 0) 'done (funcall 'f (- n 1))))",
 	"(defun f (n) (height) (probe n) (if (= n 0) 'done (apply 'f (list (- n 1)))))",
 	"(defun g (n) (height) (probe n) (f n)) (defun f (n) (if (= n 0) 'done (g (- n 1))))",
+}
+
+// programs whose value must simply be the same with and without elimination (no height claim):
+// calls in the HEAD position of a tail call, in argument position, through values
+var twinProgs = []string{
+	"(defun pick (n) (if (<= n 0) (lambda (f) f) ((pick (- n 1)) (lambda (f) f)))) ((pick n0) 42)",
+	"(defun via (n) (pick2 (- n 1))) (defun pick2 (n) (if (<= n 0) (lambda (f) f) ((via n) (lambda (f) f)))) ((pick2 n0) 20)",
+	"(defun k (m) (let ((m (- m 1))) (cond ((< m 0) (lambda (x) x)) (:else ((k m) (lambda (y) y)))))) ((k n0) 8)",
+	"(defun cnt (n) (if (= n 0) 0 (+ 1 (cnt (- n 1))))) (cnt n0)",
+	"(defun f (n acc) (if (= n 0) acc (f (- n 1) (cons n acc)))) (f n0 '())",
+	"(defun ev (n) (if (= n 0) true (od (- n 1)))) (defun od (n) (if (= n 0) false (ev (- n 1)))) (list (ev n0) (od n0))",
+	"(defun g (n) (if (= n 0) (lambda () 'end) (let ((h (g (- n 1)))) (lambda () (funcall h))))) (funcall (g n0))",
+	"(defun lp (n) (if (= n 0) 'done (funcall (lambda (m) (lp m)) (- n 1)))) (lp n0)",
+	"(defun ap (n) (if (= n 0) 'done (apply ap (list (- n 1))))) (ap n0)",
+	"(defun tw (n) (or (= n 0) (progn (tw (- n 1)) (tw (- n 1))))) (tw n0)",
+}
+
+// The value, effects and error condition are the same whether tail calls are eliminated or not.
+func VerifC02_ETwin() {
+	pi := vndChoice("prog", len(twinProgs))
+	n := vndInt("n")
+	vAssume(n >= 0)
+	vAssume(n <= vParam("N", 3))
+	run := func(twin int) (*lisp.LVal, *lisp.LEnv) {
+		var cfg []lisp.Config
+		if twin == 1 {
+			cfg = append(cfg, lisp.WithDebugger(dormantDebugger{}))
+		}
+		env := newEnv(nil, cfg...)
+		if twin == 2 {
+			env.Runtime.Profiler = &countingProfiler{}
+		}
+		env.PutGlobal(lisp.Symbol("n0"), lisp.Int(n))
+		return env.LoadString("p", twinProgs[pi]), env
+	}
+	r0, e0 := run(0)
+	r1, e1 := run(1)
+	r2, e2 := run(2)
+	vObserve("prog", pi)
+	vObserve("value", outcome(r0))
+	vAssert(r0.Type != lisp.LError, "the program has a value: "+outcome(r0))
+	vAssert(outcome(r0) == outcome(r1), "same value with elimination off (debugger attached): "+outcome(r1))
+	vAssert(outcome(r0) == outcome(r2), "same value with a profiler attached: "+outcome(r2))
+	cleanRuntime(e0, "user")
+	cleanRuntime(e1, "user")
+	cleanRuntime(e2, "user")
+	vCover("end")
 }
 
 func runTro(shape string, n int, twin int) (*probeState, *lisp.LVal, *lisp.LEnv) {
